@@ -1,4 +1,5 @@
-(* C46 -- lemmas: invariant by induction over every trace, soundness/completeness of the acceptor, value drift *)
+(* C46 -- lemmas: invariants by induction over every trace, soundness/completeness of the acceptor, value drift of
+   the always-post code, lost lock of the never-post code *)
 From Coq Require Import List Arith Bool Lia.
 From C46 Require Import C46Spec C46Model.
 Import ListNotations.
@@ -17,32 +18,38 @@ Proof. induction l as [|x r IH]; simpl; [lia|]. destruct x; simpl; lia. Qed.
 Lemma holders_app : forall a b, holders (a ++ b) = holders a + holders b.
 Proof. induction a; intros; simpl; [reflexivity|]. rewrite IHa; lia. Qed.
 
-(* the invariant, with a budget n of destructor posts already seen *)
+Lemma holding_hold : forall c, hold c = if holding c then 1 else 0.
+Proof. intros []; reflexivity. Qed.
+
+Lemma all_done_holders : forall l, all_done l -> holders l = 0.
+Proof.
+  induction l as [|x r IH]; intro H; simpl; [reflexivity|].
+  rewrite (H x (or_introl eq_refl)); simpl. apply IH. intros c Hc; apply H; right; exact Hc.
+Qed.
+
+(* ---- any kind of code: the invariant with a budget n of destructor posts already seen ---- *)
 Definition inv (n : nat) (s : state) : Prop :=
   match sem s with
-  | None => holders (procs s) = 0 /\ n = 0
+  | None => holders (procs s) = 0
   | Some v => v + holders (procs s) <= 1 + n
   end.
 
 Lemma step_inv : forall k s e s' n, step k s e s' -> inv n s -> inv (nexitpost [e] + n) s'.
 Proof.
   intros k s e s' n H; inversion H; subst; unfold inv; simpl; intro I.
-  - rewrite holders_app; simpl. destruct (sem s); [lia| destruct I; split; lia].
-  - pose proof (holders_set_pc _ _ _ Idle H0) as E; simpl in E.
-    destruct (sem s); [lia | destruct I; lia].
+  - rewrite holders_app; simpl. destruct (sem s); lia.
+  - pose proof (holders_set_pc _ _ _ Idle H0) as E; simpl in E. destruct (sem s); lia.
   - pose proof (holders_set_pc _ _ _ Holding H0) as E; simpl in E. rewrite H1 in I. lia.
-  - pose proof (holders_set_pc _ _ _ InCS H0) as E; simpl in E.
-    destruct (sem s); [lia | destruct I; lia].
-  - pose proof (holders_set_pc _ _ _ Holding H0) as E; simpl in E.
-    destruct (sem s); [lia | destruct I; lia].
+  - pose proof (holders_set_pc _ _ _ InCS H0) as E; simpl in E. destruct (sem s); lia.
+  - pose proof (holders_set_pc _ _ _ Holding H0) as E; simpl in E. destruct (sem s); lia.
   - pose proof (holders_set_pc _ _ _ Idle H0) as E; simpl in E. rewrite H1 in I. lia.
-  - pose proof (holders_set_pc _ _ _ Done H1) as E; simpl in E. rewrite H3 in I. lia.
   - pose proof (holders_set_pc _ _ _ Done H0) as E; simpl in E.
-    destruct (sem s); [lia | destruct I; lia].
+    destruct (dtor_posts k c); simpl; destruct (sem s); simpl; lia.
+  - pose proof (holders_set_pc _ _ _ Done H0) as E; simpl in E. destruct (sem s); lia.
 Qed.
 
 Lemma nexitpost_cons : forall e tr, nexitpost (e :: tr) = nexitpost [e] + nexitpost tr.
-Proof. intros [] tr; simpl; reflexivity. Qed.
+Proof. intros [| | | | | |p []|] tr; simpl; reflexivity. Qed.
 
 Lemma steps_inv : forall k s tr s', steps k s tr s' -> forall n, inv n s -> inv (nexitpost tr + n) s'.
 Proof.
@@ -52,9 +59,9 @@ Proof.
 Qed.
 
 Lemma inv_init : inv 0 init.
-Proof. unfold inv; simpl; split; reflexivity. Qed.
+Proof. unfold inv; simpl; reflexivity. Qed.
 
-(* holders are bounded by one plus the number of destructor posts, for either kind of code *)
+(* holders are bounded by one plus the number of destructor posts, for every kind of code *)
 Lemma bound_any : forall k tr s, steps k init tr s ->
   holders (procs s) <= 1 + nexitpost tr /\
   (forall v, sem s = Some v -> v + holders (procs s) <= 1 + nexitpost tr).
@@ -62,13 +69,89 @@ Proof.
   intros k tr s H. pose proof (steps_inv _ _ _ _ H 0 inv_init) as I. unfold inv in I.
   rewrite Nat.add_0_r in I. destruct (sem s) as [v|].
   - split; [lia|]. intros w E; inversion E; subst; lia.
-  - destruct I as [I _]; split; [lia| intros w E; discriminate].
+  - split; [lia| intros w E; discriminate].
 Qed.
 
+(* ---- current code: the destructor posts iff the lock is held ---- *)
+Definition cons (s : state) : Prop := conservation (sem s) (procs s) (lost s).
+
+Lemma step_cons : forall s e s', step DtorRelease s e s' -> cons s -> cons s'.
+Proof.
+  intros s e s' H; inversion H; subst; unfold cons, conservation; simpl; intro I.
+  - rewrite holders_app; simpl. destruct (sem s); lia.
+  - pose proof (holders_set_pc _ _ _ Idle H0) as E; simpl in E. destruct (sem s); lia.
+  - pose proof (holders_set_pc _ _ _ Holding H0) as E; simpl in E. rewrite H1 in I. lia.
+  - pose proof (holders_set_pc _ _ _ InCS H0) as E; simpl in E. destruct (sem s); lia.
+  - pose proof (holders_set_pc _ _ _ Holding H0) as E; simpl in E. destruct (sem s); lia.
+  - pose proof (holders_set_pc _ _ _ Idle H0) as E; simpl in E. rewrite H1 in I. lia.
+  - pose proof (holders_set_pc _ _ _ Done H0) as E; simpl in E. rewrite (holding_hold c) in E.
+    destruct (holding c); simpl; destruct (sem s); simpl; lia.
+  - pose proof (holders_set_pc _ _ _ Done H0) as E; simpl in E. destruct (sem s); lia.
+Qed.
+
+Lemma steps_cons_inv : forall s tr s', steps DtorRelease s tr s' -> cons s -> cons s'.
+Proof. induction 1; intro I; [exact I|]. apply IHsteps. eapply step_cons; eauto. Qed.
+
+Lemma cons_init : cons init.
+Proof. unfold cons, conservation; simpl; split; reflexivity. Qed.
+
+Lemma mutex_release : forall tr s, steps DtorRelease init tr s ->
+  mutual_exclusion (procs s) /\ inside (procs s) <= 1 /\ conservation (sem s) (procs s) (lost s).
+Proof.
+  intros tr s H. pose proof (steps_cons_inv _ _ _ H cons_init) as I.
+  pose proof (inside_le_holders (procs s)) as L.
+  split; [|split; [|exact I]]; unfold cons, conservation, mutual_exclusion in *; destruct (sem s); lia.
+Qed.
+
+Lemma step_lost : forall k s e s', step k s e s' -> nkill [e] = 0 -> lost s' = lost s.
+Proof. intros k s e s' H; inversion H; subst; simpl; intro N; try reflexivity; discriminate. Qed.
+
+Lemma nkill_cons : forall e tr, nkill (e :: tr) = nkill [e] + nkill tr.
+Proof. intros [] tr; simpl; reflexivity. Qed.
+
+Lemma steps_lost : forall k s tr s', steps k s tr s' -> nkill tr = 0 -> lost s' = lost s.
+Proof.
+  induction 1; intro N; [reflexivity|]. rewrite nkill_cons in N.
+  rewrite IHsteps by lia. apply (step_lost _ _ _ _ H); lia.
+Qed.
+
+(* no holder killed: the value plus the holders is exactly one; hence exactly one once nobody holds *)
+Lemma release_value : forall tr s, steps DtorRelease init tr s -> lost s = 0 ->
+  forall v, sem s = Some v -> v + holders (procs s) = 1.
+Proof.
+  intros tr s H L v E. destruct (mutex_release _ _ H) as [_ [_ C]].
+  unfold conservation in C; rewrite E in C; lia.
+Qed.
+
+Lemma release_final : forall tr s, steps DtorRelease init tr s -> lost s = 0 -> all_done (procs s) ->
+  forall v, sem s = Some v -> v = 1.
+Proof.
+  intros tr s H L D v E. pose proof (release_value _ _ H L v E) as V.
+  rewrite (all_done_holders _ D) in V; lia.
+Qed.
+
+Lemma release_final_nokill : forall tr s, steps DtorRelease init tr s -> nkill tr = 0 ->
+  (forall v, sem s = Some v -> v + holders (procs s) = 1) /\
+  (all_done (procs s) -> forall v, sem s = Some v -> v = 1).
+Proof.
+  intros tr s H N. pose proof (steps_lost _ _ _ _ H N) as L; simpl in L.
+  split; [exact (release_value _ _ H L) | exact (release_final _ _ H L)].
+Qed.
+
+(* exit() is possible at every control point of a live process, whatever the kind of code *)
+Lemma exit_enabled : forall k s p c, nth_error (procs s) p = Some c -> alive c = true ->
+  exists s', step k s (Exit p (dtor_posts k c)) s'.
+Proof. intros k s p c N A. eexists. eapply st_exit; eauto. Qed.
+
+Lemma kill_enabled : forall k s p c, nth_error (procs s) p = Some c -> alive c = true ->
+  exists s', step k s (Kill p) s'.
+Proof. intros k s p c N A. eexists. eapply st_kill; eauto. Qed.
+
+(* ---- never-post code ---- *)
 Lemma quiet_no_exitpost : forall s tr s', steps DtorQuiet s tr s' -> nexitpost tr = 0.
 Proof.
   induction 1; [reflexivity|]. rewrite nexitpost_cons, IHsteps.
-  inversion H; subst; simpl; try reflexivity. discriminate.
+  inversion H; subst; simpl; reflexivity.
 Qed.
 
 Lemma mutex_quiet : forall tr s, steps DtorQuiet init tr s ->
@@ -77,7 +160,41 @@ Proof.
   intros tr s H. pose proof (steps_inv _ _ _ _ H 0 inv_init) as I.
   rewrite (quiet_no_exitpost _ _ _ H) in I. unfold inv in I; simpl in I.
   pose proof (inside_le_holders (procs s)) as L.
-  unfold mutual_exclusion, never_more_than_created. destruct (sem s); [lia| destruct I; lia].
+  unfold mutual_exclusion, never_more_than_created. destruct (sem s); lia.
+Qed.
+
+(* the lock is lost: value 0, nobody holds *)
+Definition dead (s : state) : Prop := sem s = Some 0 /\ holders (procs s) = 0.
+
+Lemma nth_hold_le : forall l p c, nth_error l p = Some c -> hold c <= holders l.
+Proof.
+  induction l as [|x r IH]; intros [|q] c H; simpl in *; try discriminate.
+  - inversion H; subst; lia.
+  - specialize (IH q c H); lia.
+Qed.
+
+Lemma step_dead : forall s e s', step DtorQuiet s e s' -> dead s -> dead s' /\ forall p, e <> Wait p.
+Proof.
+  intros s e s' H [V Hh]; inversion H; subst; unfold dead; simpl.
+  - split; [|intros; discriminate]. rewrite holders_app; simpl; split; [assumption|lia].
+  - split; [|intros; discriminate]. pose proof (holders_set_pc _ _ _ Idle H0) as E; simpl in E.
+    rewrite V; split; [reflexivity|lia].
+  - rewrite V in H1; discriminate.
+  - apply nth_hold_le in H0; simpl in H0; lia.
+  - apply nth_hold_le in H0; simpl in H0; lia.
+  - apply nth_hold_le in H0; simpl in H0; lia.
+  - split; [|intros; discriminate]. pose proof (holders_set_pc _ _ _ Done H0) as E; simpl in E.
+    split; [assumption|lia].
+  - split; [|intros; discriminate]. pose proof (holders_set_pc _ _ _ Done H0) as E; simpl in E.
+    split; [assumption|lia].
+Qed.
+
+Lemma steps_dead : forall s tr s', steps DtorQuiet s tr s' -> dead s ->
+  dead s' /\ forall p, ~ In (Wait p) tr.
+Proof.
+  induction 1; intro D; [split; [exact D| intros p []]|].
+  destruct (step_dead _ _ _ H D) as [D1 NW]. destruct (IHsteps D1) as [D2 NI].
+  split; [exact D2|]. intros p [E|I]; [exact (NW p E) | exact (NI p I)].
 Qed.
 
 (* ---- acceptor ---- *)
@@ -93,7 +210,7 @@ Qed.
 
 Lemma step_fn_sound : forall k s e s', step_fn k s e = Some s' -> step k s e s'.
 Proof.
-  intros k s [|p|p|p|p|p|p|p] s' H; simpl in H.
+  intros k s [|p|p|p|p|p|p b|p] s' H; simpl in H.
   - inversion H; constructor.
   - destruct (at_pc s p NotOpen) eqn:A; [|discriminate]. apply at_pc_spec in A. inversion H; constructor; exact A.
   - destruct (at_pc s p Idle) eqn:A; [|discriminate]. apply at_pc_spec in A.
@@ -102,11 +219,12 @@ Proof.
   - destruct (at_pc s p InCS) eqn:A; [|discriminate]. apply at_pc_spec in A. inversion H; constructor; exact A.
   - destruct (at_pc s p Holding) eqn:A; [|discriminate]. apply at_pc_spec in A.
     destruct (sem s) as [v|] eqn:E; try discriminate. inversion H. apply st_post; assumption.
-  - destruct k; [|discriminate]. destruct (nth_error (procs s) p) as [c|] eqn:N; [|discriminate].
-    destruct (sem s) as [v|] eqn:E; [|discriminate]. destruct (opened c) eqn:O; [|discriminate].
-    inversion H. eapply st_exit_post; eauto.
   - destruct (nth_error (procs s) p) as [c|] eqn:N; [|discriminate].
-    destruct (alive c) eqn:O; [|discriminate]. inversion H. eapply st_exit_quiet; eauto.
+    destruct (alive c) eqn:O; [|discriminate]. simpl in H.
+    destruct (Bool.eqb b (dtor_posts k c)) eqn:B; [|discriminate]. apply Bool.eqb_prop in B.
+    inversion H. eapply st_exit; eauto.
+  - destruct (nth_error (procs s) p) as [c|] eqn:N; [|discriminate].
+    destruct (alive c) eqn:O; [|discriminate]. inversion H. eapply st_kill; eauto.
 Qed.
 
 Lemma step_fn_complete : forall k s e s', step k s e s' -> step_fn k s e = Some s'.
@@ -117,7 +235,7 @@ Proof.
   - apply at_pc_spec in H0; rewrite H0; reflexivity.
   - apply at_pc_spec in H0; rewrite H0; reflexivity.
   - apply at_pc_spec in H0; rewrite H0, H1; reflexivity.
-  - rewrite H1, H3, H2; reflexivity.
+  - rewrite H0, H1, Bool.eqb_reflx; reflexivity.
   - rewrite H0, H1; reflexivity.
 Qed.
 
@@ -143,19 +261,40 @@ Qed.
 Lemma accepts_complete : forall k tr s, steps k init tr s -> accepts k tr = true.
 Proof. intros k tr s H; unfold accepts; rewrite (run_complete _ _ _ _ H); reflexivity. Qed.
 
-(* accepted traces of quiet-destructor code keep mutual exclusion at every prefix *)
 Lemma run_app : forall k a b s, run k s (a ++ b) = match run k s a with Some s1 => run k s1 b | None => None end.
 Proof. induction a as [|e r IH]; intros b s; simpl; [reflexivity|]. destruct (step_fn k s e); [apply IH|reflexivity]. Qed.
 
-Lemma accepted_prefixes_mutex : forall a b, accepts DtorQuiet (a ++ b) = true ->
-  exists s, run DtorQuiet init a = Some s /\ mutual_exclusion (procs s) /\ inside (procs s) <= 1.
+(* accepted traces of the current code keep mutual exclusion and conservation at every prefix *)
+Lemma accepted_prefixes_mutex : forall a b, accepts DtorRelease (a ++ b) = true ->
+  exists s, run DtorRelease init a = Some s /\ mutual_exclusion (procs s) /\ inside (procs s) <= 1 /\
+            conservation (sem s) (procs s) (lost s).
 Proof.
   intros a b H; unfold accepts in H; rewrite run_app in H.
-  destruct (run DtorQuiet init a) as [s|] eqn:E; [|discriminate].
-  exists s; split; [reflexivity|]. apply run_sound in E. destruct (mutex_quiet _ _ E) as [M [_ I]]; split; assumption.
+  destruct (run DtorRelease init a) as [s|] eqn:E; [|discriminate].
+  exists s; split; [reflexivity|]. apply run_sound in E. exact (mutex_release _ _ E).
 Qed.
 
-(* ---- pinned code: the destructor posts ---- *)
+(* ---- never-post code: a holder that calls exit() loses the lock for ever ---- *)
+Lemma quiet_leak : exists s, steps DtorQuiet init (exit_inside false) s /\
+  all_done (procs s) /\ lost s = 0 /\ sem s = Some 0 /\
+  forall tr' s', steps DtorQuiet s tr' s' ->
+    sem s' = Some 0 /\ holders (procs s') = 0 /\ forall p, ~ In (Wait p) tr'.
+Proof.
+  eexists; split; [apply run_sound; vm_compute; reflexivity|]. simpl.
+  split; [intros c [E|[]]; symmetry; exact E|]. split; [reflexivity|]. split; [reflexivity|].
+  intros tr' s' H. assert (D : dead (mk (Some 0) [Done] 0)) by (split; reflexivity).
+  destruct (steps_dead _ _ _ H D) as [[V Hh] NW]. split; [exact V|split; [exact Hh|exact NW]].
+Qed.
+
+(* the same history on the current code: the destructor releases, the value is back to 1 *)
+Lemma release_exit_inside : exists s, steps DtorRelease init (exit_inside true) s /\
+  all_done (procs s) /\ sem s = Some 1.
+Proof.
+  eexists; split; [apply run_sound; vm_compute; reflexivity|]. simpl.
+  split; [intros c [E|[]]; symmetry; exact E|reflexivity].
+Qed.
+
+(* ---- always-post code (pinned tree) ---- *)
 Lemma refuted_posts : exists tr s, steps DtorPosts init tr s /\ inside (procs s) = 2 /\ holders (procs s) = 2.
 Proof.
   exists (history 1 0 ++ [Spawn; Spawn; Open 1; Open 2; Wait 1; Wait 2; Enter 1; Enter 2]).
@@ -169,20 +308,21 @@ Proof. induction l; intros; simpl; [reflexivity|rewrite IHl; reflexivity]. Qed.
 
 Definition value_of (o : option nat) : nat := match o with None => 1 | Some v => v end.
 
-Lemma at_last : forall sm l c, at_pc (mk sm (l ++ [c])) (length l) c = true.
+Lemma at_last : forall sm l c lo, at_pc (mk sm (l ++ [c]) lo) (length l) c = true.
 Proof. intros; apply at_pc_spec; simpl; apply nth_error_app_last. Qed.
 
 Lemma full_run_effect : forall s w, value_of (sem s) = S w ->
-  run DtorPosts s (full_run (length (procs s))) = Some (mk (Some (S (S w))) (procs s ++ [Done])).
+  run DtorPosts s (full_run (length (procs s))) = Some (mk (Some (S (S w))) (procs s ++ [Done]) (lost s)).
 Proof.
-  intros [sm l] w V; simpl in V. cbn [full_run run procs sem].
-  cbn [step_fn procs sem]. rewrite at_last. cbn [procs sem]. rewrite set_pc_app_last.
+  intros [sm l lo] w V; simpl in V. cbn [full_run run procs sem lost].
+  cbn [step_fn procs sem lost]. rewrite at_last. cbn [procs sem lost]. rewrite set_pc_app_last.
   replace (match sm with Some v => v | None => 1 end) with (S w) by (destruct sm; simpl in V; congruence).
-  cbn [step_fn procs sem]. rewrite at_last. cbn [procs sem]. rewrite set_pc_app_last.
-  cbn [step_fn procs sem]. rewrite at_last. cbn [procs sem]. rewrite set_pc_app_last.
-  cbn [step_fn procs sem]. rewrite at_last. cbn [procs sem]. rewrite set_pc_app_last.
-  cbn [step_fn procs sem]. rewrite at_last. cbn [procs sem]. rewrite set_pc_app_last.
-  cbn [step_fn procs sem]. rewrite nth_error_app_last. cbn [opened]. rewrite set_pc_app_last. reflexivity.
+  cbn [step_fn procs sem lost]. rewrite at_last. cbn [procs sem lost]. rewrite set_pc_app_last.
+  cbn [step_fn procs sem lost]. rewrite at_last. cbn [procs sem lost]. rewrite set_pc_app_last.
+  cbn [step_fn procs sem lost]. rewrite at_last. cbn [procs sem lost]. rewrite set_pc_app_last.
+  cbn [step_fn procs sem lost]. rewrite at_last. cbn [procs sem lost]. rewrite set_pc_app_last.
+  cbn [step_fn procs sem lost]. rewrite nth_error_app_last.
+  cbn [alive opened dtor_posts Bool.eqb andb bump]. rewrite set_pc_app_last. reflexivity.
 Qed.
 
 (* n complete sequential runs on the pinned code leave the value at n + its value before *)
@@ -197,7 +337,7 @@ Proof.
     rewrite holders_app, app_length; simpl. split; [f_equal; lia|split; lia].
   - change (history (S (S n)) (length (procs s))) with (full_run (length (procs s)) ++ history (S n) (S (length (procs s)))).
     rewrite run_app, (full_run_effect _ _ V).
-    set (s1 := mk (Some (S (S w))) (procs s ++ [Done])).
+    set (s1 := mk (Some (S (S w))) (procs s ++ [Done]) (lost s)).
     assert (L : S (length (procs s)) = length (procs s1)) by (simpl; rewrite app_length; simpl; lia).
     rewrite L. destruct (IH s1 (S w) eq_refl) as [s' [R [E [Hh Hl]]]].
     exists s'; split; [exact R|]. split; [rewrite E; f_equal; lia|].
